@@ -62,6 +62,7 @@ def run(tier, seed, t0):
     b = m.bins; div = b.get("divisions", 0); succ = b.get("success", 0); fail = b.get("clean_failure", 0)
     floors = {
         "divisions": (div, T(tier, 300, 20000)),
+        "calls_with_a_tiny_minimum_edge_length": (b.get("tiny_lmin_at_the_call", 0), T(tier, 5, 400)),
         "successes_30_percent": (succ, 0.30 * max(div, 1)),
         "clean_failures": (fail, T(tier, 40, 2000)),
         "division_events_hook": (b.get("division_events", 0), succ),
